@@ -169,6 +169,21 @@ func judgeUnits(r *kit.Run, costs unitCosts, tx *chain.Transaction, sponsor stat
 	if (err == nil) != (err2 == nil) || (err == nil && got != got2) {
 		r.Violation("C12/units-differ-on-second-call", c, "first Units call returned (%v, %v), the second (%v, %v)", got, err, got2, err2)
 	}
+	// ... and they are a function of the rules in force: the same transaction object metered under
+	// other rules (a rules upgrade between admission and inclusion) must follow those rules
+	var costs2 unitCosts
+	for i := range costs2 {
+		costs2[i] = (costs[i]*2654435761 + uint64(i)*977 + uint64(len(tx.Bytes()))) % 97
+	}
+	rules2 := genesis.NewDefaultRules()
+	costs2.apply(rules2)
+	want2, fits2, _ := unitsOracle(costs2, len(tx.Bytes()), computes, declared)
+	var got3 fees.Dimensions
+	var err3 error
+	r.Guard("Transaction.Units", c, func() { got3, err3 = tx.Units(sponsorKeysBH{keys: sponsor}, rules2) })
+	if fits2 && (err3 != nil || [5]uint64(got3) != want2) {
+		r.Violation("C12/units-ignore-rules-of-second-call", c, "the same transaction metered under other rules (costs %v): Units = (%v, %v), exact recomputation %v", costs2, got3, err3, want2)
+	}
 	switch {
 	case !fits && err == nil:
 		r.Violation("C12/units-overflow-accepted", c, "exact units overflow 64 bits in dimensions %v but Units returned %v without error", over, got)
